@@ -7,7 +7,11 @@ import common
 def main():
     chk = common.Check('C14')
     import fmtcheck_common as C
-    proved = chk.prove('I18n.Props.C14', generated=('cfmt', 'pyfmt', 'tagsites', 'intexpr', 'grammar', 'fmtcheck'))
+    proved = chk.prove('I18n.Props.C14', generated=('cfmt', 'pyfmt', 'tagsites', 'intexpr', 'grammar', 'fmtcheck', 'fmtargs'), extra_targets=())
+    # the tie: check_args x4 + get_last_integer_conversion regenerated from the current source and proved equal to the model (Props/C14Tie.lean)
+    tie_ok = common.prove_tie(chk, 'I18n.Props.C14Tie', ('fmtargs',),
+                              'the check_args / get_last_integer_conversion regenerated from the current lib/check/msgformat/*.py and lib/strformat/c.py are no '
+                              'longer proved equal to the comparators of Model/FmtCheck.lean (generated_*_check_args_eq_model and their corollaries)')
     problems = ' '.join(chk.lean.problems)
     driver_ok = os.path.exists(common.driver_path()) and not any('untranslatable' in s for s in chk.lean.translation.values()) \
         and 'Driver' not in problems and 'I18n.Model' not in problems and 'I18n.Spec' not in problems
@@ -61,6 +65,11 @@ def main():
         chk.stream('fmtcheck-unit-strings', slines, souts)
         ll, lo = C.lastint_cases(rng, n_lastint)
         chk.stream('fmtcheck-lastint', ll, lo)
+        if tie_ok:          # the same inputs through the definitions regenerated from the source (driver ops grun / gruns / glastint)
+            g = lambda ls: [l.replace('fmtcheck runs ', 'fmtcheck gruns ', 1).replace('fmtcheck run ', 'fmtcheck grun ', 1).replace('fmtcheck lastint ', 'fmtcheck glastint ', 1) for l in ls]
+            chk.stream('fmtcheck-unit-generated', g(lines), outs)
+            chk.stream('fmtcheck-unit-strings-generated', g(slines), souts)
+            chk.stream('fmtcheck-lastint-generated', g(ll), lo)
     else:
         chk.broken.append({'kind': 'correspondence', 'stream': 'fmtcheck-*', 'problem': 'driver could not be rebuilt from the regenerated model'})
     chk.note_cases({(c['primary'], c['msgid']['text'], c['msgstr']['text'], tuple(sorted((i, s['text']) for i, s in c['msgstr_plural'].items())))
@@ -89,6 +98,8 @@ def main():
         if driver_ok:
             chk.stream('fmtcheck-e2e', lines, outs)
             chk.stream('fmtcheck-e2e-strings', slines, souts)
+            if tie_ok:
+                chk.stream('fmtcheck-e2e-generated', g(lines), outs)
     finally:
         shutil.rmtree(work, ignore_errors=True)
 
